@@ -119,11 +119,13 @@ TypeStrIdent(t, inpkg) ==
     [] t.k = "named" -> IF t.p = "SRC" /\ inpkg THEN t.n ELSE ""
     [] OTHER -> ""
 
-(* IMPL: template/registry.go addImport *)
+(* IMPL: template/registry.go addImport.  Since 493b184 the alias search of an in-package file also avoids the
+   package-level declarations of its package. *)
+ScopeNames == IF c.inpkg THEN DOMAIN c.prog.decls \cup c.prog.localtypes ELSE {}
 AddImport(im, p, srcname, inpkg) ==
   IF p = "SRC" /\ inpkg THEN im
   ELSE IF p \in DOMAIN im THEN im
-  ELSE A!Extend(im, p, A!AliasImpl(PkgName(p, srcname), Range(im)))
+  ELSE A!Extend(im, p, A!AliasImpl(PkgName(p, srcname), Range(im) \cup ScopeNames))
 RECURSIVE AddImports(_, _, _, _)
 AddImports(im, ps, srcname, inpkg) ==
   IF ps = << >> THEN im ELSE AddImports(AddImport(im, Head(ps), srcname, inpkg), Tail(ps), srcname, inpkg)
@@ -141,14 +143,18 @@ RECURSIVE AddVars(_, _, _, _, _)
 AddVars(st, vs, role, srcname, inpkg) ==
   IF vs = << >> THEN st ELSE AddVars(AddVar(st, Head(vs), role, srcname, inpkg), Tail(vs), role, srcname, inpkg)
 
-(* IMPL: MethodScope.ResolveVariableNameCollisions *)
-RECURSIVE ResolveFrom(_, _)
-ResolveFrom(sc, i) ==
+(* IMPL: MethodScope.ResolveVariableNameCollisions.  Since 0f7671a names also stay distinct once exported (a/A, id/ID). *)
+RECURSIVE Distinct(_, _, _, _, _)
+Distinct(nn, base, k, vis, exp) == IF Exported(nn) \in exp THEN Distinct(A!SuggestImpl(base \o ToString(k), vis), base, k + 1, vis, exp) ELSE nn
+RECURSIVE ResolveFrom(_, _, _)
+ResolveFrom(sc, i, exp) ==
   IF i > Len(sc.vars) THEN sc
-  ELSE LET nn == A!SuggestImpl(sc.vars[i].name, sc.vis)
-       IN ResolveFrom([sc EXCEPT !.vis = sc.vis \cup {nn}, !.vars = [sc.vars EXCEPT ![i].name = nn]], i + 1)
+  ELSE LET nn == Distinct(A!SuggestImpl(sc.vars[i].name, sc.vis), sc.vars[i].name, 1, sc.vis, exp)
+       IN ResolveFrom([sc EXCEPT !.vis = sc.vis \cup {nn}, !.vars = [sc.vars EXCEPT ![i].name = nn]], i + 1, exp \cup {Exported(nn)})
 
 (* ------------------------------------------------------------------------ *)
+\* method_scope.go reservedNames (3883616): identifiers the built-in templates declare themselves
+Reserved == {"mock", "_mock", "_m", "_e", "_c", "tmpRet", "_va", "_ca", "_i", "callInfo", "calls"}
 Prog == c.prog
 Methods == ms
 MParams(m) == [i \in 1..Len(m.ps) |-> V(m.ps[i].n, ParamType(m, i))]
@@ -169,24 +175,29 @@ Init == /\ c \in Cases
 
 MethodData ==
   /\ pc = "methods"
-  /\ IF j > Len(Methods) THEN pc' = "resolve" /\ j' = 1 /\ UNCHANGED <<imp, scs>>
+  /\ IF j > Len(Methods)
+     THEN \* template_generator.go (ebe08f2): the interface's type-parameter names enter every method scope before Resolve
+          /\ scs' = [i \in 1..Len(scs) |-> [scs[i] EXCEPT !.vis = scs[i].vis \cup {CurTps[x].n : x \in 1..Len(CurTps)}]]
+          /\ pc' = "resolve" /\ j' = 1 /\ UNCHANGED imp
      ELSE LET m   == Methods[j]
-              st0 == [sc |-> [vis |-> Range(imp) \ {""}, vars |-> << >>, np |-> Len(m.ps)], im |-> imp]
+              st0 == [sc |-> [vis |-> (Range(imp) \ {""}) \cup Reserved, vars |-> << >>, np |-> Len(m.ps)], im |-> imp]
               st1 == AddVars(st0, MParams(m), "p", Prog.srcname, c.inpkg)
-              st2 == AddVars(st1, m.rs, "r", Prog.srcname, c.inpkg)
+              \* methodData (3883616): r0 .. r(n-1) are taken before the results are named
+              st1r == [st1 EXCEPT !.sc.vis = st1.sc.vis \cup {"r" \o ToString(i - 1) : i \in 1..Len(m.rs)}]
+              st2 == AddVars(st1r, m.rs, "r", Prog.srcname, c.inpkg)
           IN /\ imp' = st2.im /\ scs' = Append(scs, st2.sc) /\ j' = j + 1 /\ pc' = pc
   /\ UNCHANGED <<c, ms, tps, ti, outs>>
 
 Resolve ==
   /\ pc = "resolve"
   /\ IF j > Len(scs) THEN pc' = "tparams" /\ j' = 1 /\ UNCHANGED scs
-     ELSE scs' = [scs EXCEPT ![j] = ResolveFrom(scs[j], 1)] /\ j' = j + 1 /\ pc' = pc
+     ELSE scs' = [scs EXCEPT ![j] = ResolveFrom(scs[j], 1, {})] /\ j' = j + 1 /\ pc' = pc
   /\ UNCHANGED <<c, ms, imp, tps, ti, outs>>
 
 \* typeParams() of the current interface; then the next interface of the file (same registry), or the template
 TypeParams ==
   /\ pc = "tparams"
-  /\ LET st0 == [sc |-> [vis |-> Range(imp) \ {""}, vars |-> << >>, np |-> 0], im |-> imp]
+  /\ LET st0 == [sc |-> [vis |-> (Range(imp) \ {""}) \cup Reserved, vars |-> << >>, np |-> 0], im |-> imp]
          st1 == AddVars(st0, [i \in 1..Len(CurTps) |-> V(CurTps[i].n, CurTps[i].c)], "tp", Prog.srcname, c.inpkg)
          tp  == [i \in 1..Len(CurTps) |-> [orig |-> CurTps[i].n, name |-> st1.sc.vars[i].name, c |-> CurTps[i].c]]
      IN /\ imp' = st1.im
@@ -282,10 +293,6 @@ IfaceIssues(o, opts) ==
   \* methods of the generic mock declare the type parameters in their receiver: a parameter of that name redeclares it
   \cup (IF \E i \in 1..Len(o.scs) : \E k \in 1..Len(o.scs[i].vars) : o.scs[i].vars[k].name \in {Exported(o.tps[x].name) : x \in 1..Len(o.tps)}
         THEN {"param-vs-tparam"} ELSE {})
-  \cup (IF c.tmpl = "matryer" /\ ~opts.skipensure
-           /\ \E i \in 1..Len(o.tps) : ~ConstraintIsExplicit(o.tps[i].c) /\ ~(o.tps[i].c.k = "basic" /\ o.tps[i].c.n = "any")
-                                        /\ o.tps[i].c.k \notin {"named", "iface"}
-        THEN {"ensure-constraint-text"} ELSE {})
   \cup UNION {IF c.tmpl = "testify" THEN TestifyMethodIssues(o.ms[i], o.scs[i], opts.unroll)
               ELSE MatryerMethodIssues(o.ms[i], o.scs[i], opts.stub) : i \in 1..Len(o.scs)}
 
@@ -357,15 +364,11 @@ IfaceOut(o) == [n |-> o.n, methods |-> [i \in 1..Len(o.scs) |-> MethodOut(o, i)]
 ModelIssues == IF NoNestedCapture THEN {} ELSE {"nested-type-ident"}
 \* Every way the code-shaped model breaks the contract today is a NAMED deviation (DESIGN section 8 / known_findings.jsonl);
 \* a new, unnamed one fails this invariant at model level.
-NamedDeviations == {"tpl-redeclare",           \* D11 rest: parameter named like an identifier the template declares
-                    "tpl-capture",             \* N2/N4: parameter (or the matryer receiver `mock`) captures an identifier the body uses
+NamedDeviations == {"tpl-capture",             \* N2/N4: parameter (or the matryer receiver `mock`) captures an identifier the body uses
                     "tpl-capture-type",        \* N10: testify Run() closure locals capture an in-package type name
-                    "matryer-field-dup",       \* N8
                     "import-qual-clash",       \* N3: testify's hard-coded `mock` import
-                    "import-vs-local-decl",    \* N9
+                    "import-vs-local-decl",    \* N9, testify half only: its `mock` import does not go through the registry
                     "tparam-case",             \* D13
-                    "param-vs-tparam",         \* N7
-                    "ensure-constraint-text",  \* D13 (matryer ensure line)
                     "nested-type-ident"}       \* N2: only whole type strings are registered in the method scope
 DeviationsNamed == pc = "done" => (ModelIssues \cup UNION {Issues(o) : o \in OptSets}) \subseteq NamedDeviations
 
